@@ -100,6 +100,8 @@ Forms == <<
        {<<"k", "bool", "true">>, <<"l", "null", "">>, <<"m", "num", "15e-1">>, <<"n", "other", "">>, <<"o", "other", "">>}),
   D("m7", "{'a':1,'a':2}", "map", {<<"a", "num", "2">>}),
   D("merged_x", "{}", "mapint", {}),
+  D("m8", "{\"a\":\"}{\",\"b\":1}", "map", {<<"a", "str", "}{">>, <<"b", "num", "1">>}),
+  F("m9", "{'a':'\"}'}", "str", "{'a':'\"}'}", TRUE),          \* apostrophes become double quotes: not JSON any more
   \* a dict that cannot be decoded as the key asks is kept as the string it is
   F("merged_y", "{'s1':'x'}", "str", "{'s1':'x'}", TRUE),  F("y_status", "{'a':1}", "str", "{'a':1}", TRUE),
   F("d1", "{a}", "str", "{a}", TRUE),                F("d2", "{{'x':1}}", "str", "{{'x':1}}", TRUE),
